@@ -78,6 +78,9 @@ def gen_cases(rng, tier):
     for j, evs in enumerate(([ "D:0:0", _recv(0, 8, "e0"), "U:0", _recv(0, 9, "e1")], ["D:0:0", _recv(0, 9, "e0"), _recv(0, 8, "e1"), "U:0", _recv(0, 10, "e2")],
                              ["D:0:0", _recv(0, 8, "e0"), "U:0", _recv(0, 10, "e1"), _recv(0, 9, "e2")])):
         cases.append(["empty%d" % j, "c10", "S:7:1", ",".join(evs)])
+    for j, evs in enumerate(([_recv(0, 8, "t0", tt="L0"), _recv(0, 8, "t1")], [_recv(0, 9, "t0", ft="P0"), _recv(0, 8, "t1"), _recv(0, 9, "t2")],
+                             [_recv(0, 8, "t0", cid="C0"), _recv(0, 8, "t1", tt="L0", ft="P0"), _recv(0, 8, "t2")])):
+        cases.append(["tagcase%d" % j, "c10", "S:7:1", ",".join(evs)])
     for j, evs in enumerate(([_recv(0, 100, "k0"), "K:1", _recv(0, 101, "k1")], ["K:10"], [_recv(0, 5, "k0"), "D:0:0", "K:3", "U:0", _recv(0, 6, "k1")])):
         cases.append(["stale%d" % j, "c10", "C:1", ",".join(evs)])
     # exhaustive permutations
@@ -139,7 +142,7 @@ def gen_cases(rng, tier):
                 evs.insert(rng.randrange(0, len(evs) + 1), ("m1", c))
         # noise: non-matching combinations
         for _ in range(rng.randrange(0, 4)):
-            evs.insert(rng.randrange(0, len(evs) + 1), ("x", rng.choice(["cid", "ft", "tt", "nott", "noft", "swap"])))
+            evs.insert(rng.randrange(0, len(evs) + 1), ("x", rng.choice(["cid", "ft", "tt", "nott", "noft", "swap", "ftcase", "ttcase", "cidcase"])))
         # low-CSeq ACK (passes through)
         if rng.random() < 0.4:
             evs.insert(rng.randrange(1, len(evs) + 1), ("ack", None))
@@ -182,6 +185,12 @@ def gen_cases(rng, tier):
                     out.append(_recv(0, c, r, ft="-"))
                 elif v == "swap":
                     out.append(_recv(0, c, r, ft="l0", tt="p0"))
+                elif v == "ftcase":
+                    out.append(_recv(0, c, r, ft="P0"))          # tags (and Call-IDs) that differ in letter case only are other tags
+                elif v == "ttcase":
+                    out.append(_recv(0, c, r, tt="L0"))
+                elif v == "cidcase":
+                    out.append(_recv(0, c, r, cid="C0"))
         cases.append(["rnd%d" % i, "c10", ",".join(setup), ",".join(out)])
     return cases
 
